@@ -451,6 +451,42 @@ func streamC07(env *runEnv) {
 		env.count("c07.stalled-client." + strings.SplitN(verdict, "-", 2)[0])
 		env.emit("isolation", "other-tunnels-while-a-"+stalledTr+"-client-does-not-read", verdict)
 	}
+	// an inbound request without a connection id joins nothing, whoever else is waiting for an inbound request
+	{
+		b := newTagBackend(nil)
+		idA := fmt.Sprintf("{c07-noid-a-%d}", env.seed)
+		verdict := "own-bytes-only"
+		out, outBr, st, err := legacyOpenOut(srv.inst, idA, nil)
+		if err != nil || st != 200 {
+			verdict = fmt.Sprintf("out-status-%d", st)
+		} else {
+			if in0, _, st0, err0 := legacyOpenIn(srv.inst, "", nil); err0 == nil {
+				if st0 == 200 {
+					verdict = "inbound-request-without-connection-id-accepted"
+				}
+				in0.Close()
+			}
+			in, inBr, st2, err2 := legacyOpenIn(srv.inst, idA, nil)
+			if err2 != nil || st2 != 200 {
+				if verdict == "own-bytes-only" {
+					verdict = fmt.Sprintf("own-inbound-request-refused-%d", st2)
+				}
+			} else {
+				l := &legacyConn{out: out, outBr: outBr, in: in, inBr: inBr}
+				l.in.Write([]byte("preamble-to-be-drained"))
+				time.Sleep(60 * time.Millisecond)
+				l.send(packet(ptHandshake, handshakeBody(1, 0, 0, 2)))
+				if m, e := l.recv(2 * time.Second); (e != nil || len(m) < 2 || int(m[0])|int(m[1])<<8 != 2) && verdict == "own-bytes-only" {
+					verdict = "own-tunnel-not-served-after-the-id-less-request"
+				}
+				in.Close()
+			}
+			out.Close()
+		}
+		b.close()
+		env.count("c07.noid." + strings.SplitN(verdict, "-", 2)[0])
+		env.emit("isolation", "inbound-request-without-connection-id-while-a-tunnel-waits", verdict)
+	}
 	// legacy pairing: IN attaches to the OUT with the same connection id only
 	for k := 0; k < 6; k++ {
 		b := newTagBackend([]byte("<pair-host>"))
